@@ -49,6 +49,7 @@ type ftrans struct {
 	requests [][]byte // collected request frames (size prefix included)
 	chunked  bool     // answer in three pieces, each one consumed before the next is fed
 	answered int
+	fedWhole int // answers fed completely
 }
 
 func newFtrans() *ftrans {
@@ -206,8 +207,14 @@ func (t *ftrans) onFrame(frame []byte) {
 	if resp == nil {
 		return
 	}
+	fedAll := func() {
+		t.mu.Lock()
+		t.fedWhole++
+		t.mu.Unlock()
+	}
 	if !chunked {
 		t.Feed(resp)
+		fedAll()
 		return
 	}
 	// three pieces: inside the size field, inside the headers, the rest; each
@@ -218,10 +225,19 @@ func (t *ftrans) onFrame(frame []byte) {
 	for _, c := range cuts {
 		t.Feed(resp[prev:c])
 		prev = c
+		if c == len(resp) {
+			fedAll()
+		}
 		if !t.waitConsumed() {
 			return
 		}
 	}
+}
+
+func (t *ftrans) fedCount() int {
+	t.mu.Lock()
+	defer t.mu.Unlock()
+	return t.fedWhole
 }
 
 // waitConsumed waits until the reader has taken every fed byte and is parked
